@@ -16,8 +16,7 @@ def short(txt, n=110):
     return txt if len(txt) <= n else txt[: n - 3] + "..."
 
 
-def utext(node):
-    return " ".join(ast.unparse(node).split())
+from .astutil import utext, canon, canon_text  # noqa: E402,F401  (canonical spelling, see astutil)
 
 
 def key(func, node=None, extra=None):
@@ -27,6 +26,39 @@ def key(func, node=None, extra=None):
     if extra:
         k += " :: " + extra
     return k
+
+
+def sbody(stmts):
+    """statements without docstrings and pure logging calls"""
+    from .cfg import strip_logging
+    return strip_logging(stmts)
+
+
+class _Clean(ast.NodeTransformer):
+    def _strip(self, node):
+        from .cfg import is_logging_stmt
+        for fld in ("body", "orelse", "finalbody"):
+            b = getattr(node, fld, None)
+            if isinstance(b, list):
+                nb = [x for x in b if not is_logging_stmt(x)]
+                if fld == "body" and not nb:
+                    nb = [ast.Pass()]
+                setattr(node, fld, nb)
+        return node
+
+    def generic_visit(self, node):
+        super().generic_visit(node)
+        if isinstance(node, (ast.If, ast.For, ast.While, ast.With, ast.Try, ast.FunctionDef, ast.ExceptHandler)):
+            self._strip(node)
+        return node
+
+
+def ctext(node):
+    """canonical text of a statement with logging statements removed at every depth"""
+    import copy
+    n = _Clean().visit(copy.deepcopy(node))
+    ast.fix_missing_locations(n)
+    return utext(n)
 
 
 def call_name(call):
@@ -98,6 +130,7 @@ _SYM = {ast.Lt: "<", ast.Gt: ">", ast.LtE: "<=", ast.GtE: ">=", ast.Eq: "==", as
 def canon_compare(expr, polarity=True):
     """(left text, op symbol, right text) of a single comparison under the given polarity, or
     None.  `not (a < b)` is handled by the CFG (polarity False)."""
+    expr = canon(expr)
     if not isinstance(expr, ast.Compare) or len(expr.ops) != 1:
         return None
     op = type(expr.ops[0])
